@@ -179,7 +179,7 @@ pub fn run(tier: Tier, seed: u64) -> Report {
     let r = run_pbt(
         "probes",
         seed,
-        tier.pick(8_000, 400_000),
+        tier.pick(80_000, 2_500_000),
         || {
             (
                 proptest::bool::weighted(0.35),
